@@ -60,9 +60,17 @@ impl<T: RefCnt> HybridProtection<T> {
             // possibly destroyed) and fail.
             None
         } else {
-            // It changed in the meantime, but the debt for the previous pointer was already paid
-            // for by someone else, so we are fine using it.
-            Some(unsafe { Self::new(ptr, None) })
+            // It changed in the meantime and the debt for the previous pointer was already paid
+            // for by someone else, so we own one reference to whatever lives at that address now.
+            //
+            // We must not use it, though. The debt was not confirmed, so the value we have read
+            // the address of might have been released in the meantime and the address recycled
+            // for a different value. The writer that has paid could have been replacing *that*
+            // one, possibly in a completely different storage (debts are matched only by the
+            // address), and we would return something that has never been stored in here. Give
+            // the reference back and go the slow but certain way.
+            unsafe { T::dec(ptr) };
+            None
         }
     }
 
